@@ -33,7 +33,7 @@ const (
 
 type pathOff struct {
 	Path []int
-	Off  uintptr                             // unsafe.Offsetof chain written in source
+	Off  uintptr                               // unsafe.Offsetof chain written in source
 	Addr func(s unsafe.Pointer) unsafe.Pointer // address of the same selector taken on an instance
 }
 
@@ -104,20 +104,20 @@ func canon(t reflect.Type) string {
 }
 
 type tdesc struct {
-	K string   `json:"k"`
-	N string   `json:"n,omitempty"`
-	S uintptr  `json:"s"`
-	A int      `json:"a"`
-	E *tdesc   `json:"e,omitempty"`
-	F []fdesc  `json:"f,omitempty"`
+	K string  `json:"k"`
+	N string  `json:"n,omitempty"`
+	S uintptr `json:"s"`
+	A int     `json:"a"`
+	E *tdesc  `json:"e,omitempty"`
+	F []fdesc `json:"f,omitempty"`
 }
 
 type fdesc struct {
-	N  string `json:"n"`
-	T  string `json:"t"`
-	A  bool   `json:"a"`
+	N  string  `json:"n"`
+	T  string  `json:"t"`
+	A  bool    `json:"a"`
 	O  uintptr `json:"o"`
-	Ty *tdesc `json:"ty"`
+	Ty *tdesc  `json:"ty"`
 }
 
 func describe(t reflect.Type) *tdesc {
@@ -145,14 +145,14 @@ func describe(t reflect.Type) *tdesc {
 //------------------------------------------------------------------------------
 
 type entryObs struct {
-	Name string `json:"name"`
-	Key  string `json:"key"`
-	Type string `json:"type"`
+	Name string  `json:"name"`
+	Key  string  `json:"key"`
+	Type string  `json:"type"`
 	Off  uintptr `json:"off"`
 	Root uintptr `json:"root"`
-	ID   int    `json:"id"`
-	Anon bool   `json:"anon"`
-	Pure string `json:"pure"`
+	ID   int     `json:"id"`
+	Anon bool    `json:"anon"`
+	Pure string  `json:"pure"`
 }
 
 func obsEntry[T any](t hseq.Type[T]) entryObs {
@@ -569,16 +569,16 @@ func runC03(sd *shapeDef, L []entryObs) {
 //------------------------------------------------------------------------------
 
 type lensObs struct {
-	I     int      `json:"i"`
-	Get0  []int    `json:"get0"`
-	P0    bool     `json:"p0"`
-	V     []int    `json:"v"`
-	PPut  bool     `json:"pput"`
-	Same  bool     `json:"same"`
-	Diff  [][2]int `json:"diff"`
-	Get1  []int    `json:"get1"`
-	P1    bool     `json:"p1"`
-	Dyn   []dynObs `json:"dyn,omitempty"`
+	I    int      `json:"i"`
+	Get0 []int    `json:"get0"`
+	P0   bool     `json:"p0"`
+	V    []int    `json:"v"`
+	PPut bool     `json:"pput"`
+	Same bool     `json:"same"`
+	Diff [][2]int `json:"diff"`
+	Get1 []int    `json:"get1"`
+	P1   bool     `json:"p1"`
+	Dyn  []dynObs `json:"dyn,omitempty"`
 }
 
 type dynObs struct {
@@ -639,7 +639,7 @@ func observeLens(sd *shapeDef, ar *arena, l any, i int, A reflect.Type, spectrum
 	if !p1 {
 		o.Get1 = valueBytes(g1)
 	}
-	if spectrum && withDyn {
+	if spectrum && withDyn && i == 0 {
 		for _, arg := range []string{"val", "other", "nil", "typednil"} {
 			for _, isPut := range []bool{false, true} {
 				w2, s2 := ar.instance()
@@ -669,10 +669,15 @@ func observeLens(sd *shapeDef, ar *arena, l any, i int, A reflect.Type, spectrum
 
 type other struct{ A, B, C, D [64]byte }
 
-func runDerivation(sd *shapeDef, ar *arena, prop string, d *deriver, attr []string, withDyn bool) {
+func runDerivation(sd *shapeDef, ar *arena, prop string, d *deriver, attr []string, spare []string, withDyn bool) {
 	var ls []any
-	_, p := try(func() any { ls = d.Fn(attr...); return nil })
-	req := obj{"via": d.Via, "ptr": d.Ptr, "tys": typeNames(d.Tys), "attr": attr}
+	// the variadic slice has exactly the capacity of its length, unless spare names are asked for:
+	// then they sit behind its end, inside its capacity (what `names[:k]...` of a longer slice gives)
+	arg := make([]string, len(attr), len(attr)+len(spare))
+	copy(arg, attr)
+	copy(arg[len(attr):cap(arg)], spare)
+	_, p := try(func() any { ls = d.Fn(arg...); return nil })
+	req := obj{"via": d.Via, "ptr": d.Ptr, "tys": typeNames(d.Tys), "attr": attr, "spare": spare}
 	if p {
 		c(prop, sd.ID, req, obj{"panic": true})
 		return
@@ -775,16 +780,16 @@ func attrsFor(sd *shapeDef, d *deriver, L []entryObs, u []string, hostile bool) 
 	if ok {
 		res = append(res, right)
 		if hostile {
-			res = append(res, append(append([]string{}, right...), "extra", "nope")) // more names than needed
+			if rng.Intn(2) == 0 {
+				res = append(res, append(append([]string{}, right...), "extra", "nope")) // more names than needed
+			}
 			if n > 1 {
 				res = append(res, right[:n-1]) // too few names
 			}
 		}
 	}
 	if hostile {
-		for k := 0; k < 2; k++ {
-			res = append(res, randNames(u, keysOf(L), n, true))
-		}
+		res = append(res, randNames(u, keysOf(L), n, true))
 	}
 	return res
 }
@@ -795,19 +800,36 @@ func runDerive(sd *shapeDef, ar *arena, L []entryObs, props map[string]bool) {
 		d := &sd.Derive[i]
 		if props["C01"] && !d.Ptr {
 			for _, attr := range attrsFor(sd, d, L, u, false) {
-				runDerivation(sd, ar, "C01", d, attr, false)
+				runDerivation(sd, ar, "C01", d, attr, []string{}, false)
 			}
 		}
 		if props["C02"] {
 			as := attrsFor(sd, d, L, u, true)
-			if len(d.Tys) == 1 {
-				// the request matrix: every name against this focus type
-				for _, n := range u {
-					as = append(as, []string{n})
+			n := len(d.Tys)
+			if n == 1 {
+				// the request matrix: this focus type against the keys of the fields of that type,
+				// some other keys, and names from the universe (raw names, whole tags, misses)
+				same := 0
+				for _, e := range L {
+					if e.Type == canon(d.Tys[0]) && same < 3 || rng.Intn(16) == 0 {
+						as = append(as, []string{e.Key})
+						same++
+					}
 				}
+				as = append(as, []string{pick(u)})
 			}
 			for _, attr := range as {
-				runDerivation(sd, ar, "C02", d, attr, true)
+				runDerivation(sd, ar, "C02", d, attr, []string{}, true)
+			}
+			// too few names in front of spare capacity that holds the missing ones
+			if n > 1 && !d.Ptr {
+				for _, attr := range as {
+					if len(attr) == n {
+						k := 1 + rng.Intn(n-1)
+						runDerivation(sd, ar, "C02", d, attr[:k], attr[k:], false)
+						break
+					}
+				}
 			}
 		}
 	}
